@@ -8,7 +8,10 @@ package core
 // The relay goroutine of ImportAllSince: the import cursor (lastImportTime) is stored only when no
 // error event was relayed, whatever the importer sent.
 //@ func (*Bridge).ImportAllSince$1
-//@   props C16
+//@   props C16 C15
+// (C15/C16) the cursor is stored under the documented key of git-bug's own configuration section - the key the next
+// import reads, and a valid git configuration variable name
+//@   assert at `err = b.repo.LocalConfig().StoreTimestamp(key, importStartTime)` [cursor-stored-under-the-documented-key] key == "git-bug.bridge." + b.Name + ".lastImportTime"
 //@   ensures [cursor-only-if-clean] repository.cursorStores > old(repository.cursorStores) ==> (forall k int :: { recvat(events, k) } 0 <= k && k < recvcount(events) ==> recvat(events, k).Event != ImportEventError)
 //@   ensures [cursor-stored-once]   repository.cursorStores <= old(repository.cursorStores) + 1
 //@   loop 1
